@@ -57,6 +57,15 @@ def optNat? (o : Op) (k : String) : Option (Option Nat) :=
   | none => some none
   | some v => if v.all Char.isDigit then (v.toNat?).bind fun n => if n < maxBound then some (some n) else none else none
 
+/-- the optional `ctx=` argument of a call: absent → `some none`, malformed → `none` -/
+def ctx? (o : Op) : Option (Option Ctx) :=
+  match o.get? "ctx" with
+  | none => some none
+  | some "live" => some (some .live)
+  | some "cancelled" => some (some .cancelled)
+  | some "expired" => some (some .expired)
+  | _ => none
+
 def at? (o : Op) : Option Bool :=
   match o.get? "at" with | some "0" => some false | some "1" => some true | _ => none
 
@@ -80,13 +89,15 @@ def step (s : S) (line : String) : S × String :=
   match o.verb with
   | "reset" => doReset o
   | "submit" =>
-    match inSeq, o.bytes? "id", (o.get? "txs").bind parseHexList with
-    | true, some id, some b => run1 s (Queue.Op.submit id b) ""
-    | _, _, _ => bad
+    match inSeq, o.bytes? "id", (o.get? "txs").bind parseHexList, ctx? o with
+    | true, some id, some b, some none => run1 s (Queue.Op.submit id b) ""
+    | true, some id, some b, some (some c) => run1 s (Queue.Op.submitCtx c id b) ""
+    | _, _, _, _ => bad
   | "next" =>
-    match inSeq, o.bytes? "id" with
-    | true, some id => run1 s (Queue.Op.next id) ""
-    | _, _ => bad
+    match inSeq, o.bytes? "id", ctx? o with
+    | true, some id, some none => run1 s (Queue.Op.next id) ""
+    | true, some id, some (some c) => run1 s (Queue.Op.nextCtx c id) ""
+    | _, _, _ => bad
   | "restart" =>
     match optNat? o "max" with
     | some none => run1 s Queue.Op.restart ""
